@@ -36,7 +36,7 @@ fn adversarial_name(w: &mut Rng, fresh_made: usize) -> String {
         12 => format!("f{}", (1u64 << 30) - 2 + w.below(4) as u64),
         13 => format!("{}", (1u64 << 30) + 1 - w.below(4) as u64),
         14 => format!("f{}", u32::MAX as u64 + w.below(3) as u64 - 1),
-        _ => ["a", "b", "fx", "ff1", "F1", "f1x", "1f", "$x", "f-1", "f 1"][w.below(10)].to_string(),
+        _ => ["a", "b", "fx", "ff1", "F1", "f1x", "1f", "$x", "f-1", "f 1", "x", "$5", "5", "$f0", "$f1", "$$x", "$a"][w.below(17)].to_string(),
     }
 }
 
